@@ -192,6 +192,16 @@ func init() {
 			return e.intV(len(x.b))
 		case ArrayV:
 			return e.intV(len(x))
+		case *MapV:
+			n := 0
+			if x != nil {
+				for _, k := range x.keys {
+					if k != nil {
+						n++
+					}
+				}
+			}
+			return e.intV(n)
 		}
 		panic(unsupported("reflect.Value.Len on " + fmt.Sprintf("%T", iv.v)))
 	}
@@ -335,6 +345,16 @@ func (e *Exec) rtypeMethod(t types.Type, name string, args []Value) Value {
 			panic(targetPanic{msg: fmt.Sprintf("reflect: Func index out of bounds: index out of range [%d] with length %d", i, tup.Len()), pos: "reflect.Type." + name})
 		}
 		return mkRType(tup.At(i).Type())
+	case "Implements":
+		it, ok := rtypeOf(args[0])
+		if !ok {
+			panic(targetPanic{msg: "reflect: nil type passed to Type.Implements", pos: "reflect"})
+		}
+		iface, ok := it.Underlying().(*types.Interface)
+		if !ok {
+			panic(targetPanic{msg: "reflect: non-interface type passed to Type.Implements", pos: "reflect"})
+		}
+		return e.ts.Bool(types.Implements(t, iface))
 	case "Elem":
 		switch u := t.Underlying().(type) {
 		case *types.Slice:
